@@ -46,6 +46,10 @@ pub struct Msg<G: Group> {
     pub seed: Option<Scalar>,
     pub ctx: Context,
     pub proof: Vec<u8>,
+    /// a seed written into the statement's public `seed_nonce` field AFTER construction (every field of
+    /// the statement is public, so a verifier can hold an aggregated statement that carries a seed
+    /// although the constructor would not build one)
+    pub force_seed: Option<Scalar>,
 }
 
 pub enum Delivered<G: Group> {
@@ -66,6 +70,7 @@ impl<G: Group> Msg<G> {
             seed: wit.seed(),
             ctx: ctx.clone(),
             proof: G::to_bytes(proof),
+            force_seed: None,
         }
     }
 
@@ -87,10 +92,13 @@ impl<G: Group> Msg<G> {
                 Err(e) => return Delivered::Refused(format!("params: {}", err_class(&e))),
             },
         };
-        let st = match G::statement(params, self.commitments.clone(), self.promises.clone(), self.seed) {
+        let mut st = match G::statement(params, self.commitments.clone(), self.promises.clone(), self.seed) {
             Ok(s) => s,
             Err(e) => return Delivered::Refused(format!("statement: {}", err_class(&e))),
         };
+        if let Some(fs) = self.force_seed {
+            st.seed_nonce = Some(fs);
+        }
         let proof = match G::from_bytes(&self.proof) {
             Ok(p) => p,
             Err(e) => return Delivered::Refused(format!("from_bytes: {}", err_class(&e))),
@@ -172,6 +180,8 @@ pub enum Fault {
     GeneratorG { k: usize, part: GenPart },
     ContextLabel,
     ContextExtra,
+    /// one bit of the ENCODING of a commitment generator handed to the transcript (`k = None`: H)
+    GeneratorEncodingBit { k: Option<usize>, bit: usize },
 }
 
 impl Fault {
@@ -194,6 +204,7 @@ impl Fault {
             Fault::GeneratorG { .. } => "generator_g",
             Fault::ContextLabel => "context_label",
             Fault::ContextExtra => "context_extra",
+            Fault::GeneratorEncodingBit { .. } => "generator_encoding_bit",
         }
     }
 }
@@ -462,6 +473,25 @@ pub fn apply_fault<G: Group>(msg: &Msg<G>, f: &Fault, rng: &mut SimRng) -> Optio
                 GenPart::Both => {
                     pc.g_base_compressed_vec[*k] = np.compress();
                     pc.g_base_vec[*k] = np;
+                },
+            }
+            out.pc = Some(pc);
+        },
+        Fault::GeneratorEncodingBit { k, bit } => {
+            let mut pc = msg.pc.clone().unwrap_or_else(|| G::pedersen(msg.ext));
+            match k {
+                None => {
+                    let mut b = G::c_bytes(&pc.h_base_compressed);
+                    b[bit / 8 % 32] ^= 1 << (bit % 8);
+                    pc.h_base_compressed = G::c_from(b);
+                },
+                Some(k) => {
+                    if *k >= pc.g_base_compressed_vec.len() {
+                        return None;
+                    }
+                    let mut b = G::c_bytes(&pc.g_base_compressed_vec[*k]);
+                    b[bit / 8 % 32] ^= 1 << (bit % 8);
+                    pc.g_base_compressed_vec[*k] = G::c_from(b);
                 },
             }
             out.pc = Some(pc);
